@@ -73,9 +73,9 @@ theorem set_extension_total (present : Bool) (profile : Nat) (block : List UInt8
 
 /-- **marshal_total**: `RtpPacket::marshal` of any packet shape (any CSRC count, extension length, payload and
 padding length) returns a value or an error; its writes stay inside the `encoded_len` buffer. -/
-theorem marshal_total (ncsrc : Nat) (hasExt : Bool) (extLen payloadLen paddingLen : Nat) (b : Buf) (n : Nat) (s : String) :
-    Rtp.marshal ncsrc hasExt extLen payloadLen paddingLen b n ≠ .panic s :=
-  safe_noPanic (Rtp.marshal_safe ncsrc hasExt extLen payloadLen paddingLen b n) s
+theorem marshal_total (pt ncsrc : Nat) (hasExt : Bool) (extLen payloadLen paddingLen : Nat) (b : Buf) (n : Nat) (s : String) :
+    Rtp.marshal pt ncsrc hasExt extLen payloadLen paddingLen b n ≠ .panic s :=
+  safe_noPanic (Rtp.marshal_safe pt ncsrc hasExt extLen payloadLen paddingLen b n) s
 
 /-- `parse_rtcp_packets` (compound walk and every sub-parser) never panics and leaves its loops. -/
 theorem noPanic_rtcp (bs : List UInt8) (s : String) : runSlice Rtp.parseRtcp bs ≠ .panic s :=
@@ -130,20 +130,16 @@ theorem noPanic_turnPacket (bs : List UInt8) (peerKnown : Bool) (s : String) :
 theorem noPanic_handlePacket (bs : List UInt8) (s : String) : runSlice Ice.handlePacketClass bs ≠ .panic s :=
   safe_noPanic (Ice.handlePacketClass_safe (B := 0) (Q := fun _ _ _ => True) bs.toArray (by omega) (fun _ => trivial)) s
 
-/-- `TurnClient::recv` over TCP: for every receive-buffer size, every 16-bit frame length and every sequence of
-socket read sizes, the frame read stays inside the buffer (after the `fix:` commit), terminates, and returns the
-frame length only when it fits the buffer. -/
-theorem noPanic_turnTcpRecv (bufLen len : Nat) (reads : List Nat) (b : Buf) (n : Nat) (s : String) :
-    Ice.turnTcpRecv bufLen len reads b n ≠ .panic s :=
-  safe_noPanic (Ice.turnTcpRecv_safe bufLen len reads b n) s
+/-- `TurnClient::recv` over TCP (self-delimiting STUN / ChannelData messages): for every receive-buffer size and every
+byte stream the server sends before closing the connection, the read stays inside the buffer, ends (EOF is an error),
+and a returned message length never exceeds the buffer. -/
+theorem noPanic_turnTcpRecv (bufLen : Nat) (stream : List UInt8) (s : String) :
+    runBuf (Ice.turnTcpRecv bufLen) stream ≠ .panic s :=
+  safe_noPanic (Ice.turnTcpRecv_safe bufLen _ _) s
 
 /-- `unwrap_rtx_packet` is total on every payload. -/
 theorem noPanic_unwrapRtx (bs : List UInt8) (s : String) : runSlice Ice.unwrapRtx bs ≠ .panic s :=
   safe_noPanic (Ice.unwrapRtx_safe bs.toArray _ _) s
-
-/-- witness kept from before the fix: the unfixed frame read (`&mut buf[offset..len]` without the length check)
-panics for a 1501-byte frame and a 1500-byte buffer. -/
-example : (loopM (Ice.turnTcpBody 1500 1501) 1502 (0, [1501]) (Buf.ofList []) 0).isPanic = true := by decide +kernel
 
 /-! ## DTLS (src/transports/dtls/{record,handshake,mod}.rs) -/
 
